@@ -12,7 +12,7 @@ def sh(cmd, cwd=None, env=None, timeout=1800):
 
 def main():
     only = sys.argv[1:] or sorted(os.listdir("/tmp/seed"))
-    for pid in only:
+    for pid in [x for x in only if os.path.isdir(f"/tmp/seed/{x}")]:
         base = f"/tmp/seed/{pid}"
         wt = f"{base}/pytestarch"
         for ch in sorted(d for d in os.listdir(base) if d.startswith("change_")):
